@@ -145,6 +145,13 @@ def boot(packages=('recognizers_text', 'recognizers_number', 'recognizers_number
     finally:
         _dtmod.datetime = RealDateTime
     _booted = True
+    try:
+        # tuning knob of a dependency, not of the library: regex keeps at most 500 compiled patterns and recompiles
+        # (pure Python, seconds per culture) on overflow; simulated cold starts rebuild models thousands of times
+        import regex._main as _rm
+        _rm._MAXCACHE = 10 ** 7
+    except Exception:   # pragma: no cover
+        pass
     verify_origin()
     return mods
 
